@@ -38,9 +38,31 @@ macro "mono_auto" : tactic => `(tactic|
     | exact ihI _
     | exact ihB _ _
     | exact ihS _
+    | exact ihM _
+    | exact ihR _ _
+    | exact ihE _
+    | exact ihET _ _
+    | exact ihK _ _
+    | exact ihO _
+    | exact monoPats _ _ _
     | apply RLe.ite
     | apply RLe.bind
     | (intro a; first | (obtain ⟨_, _⟩ := a; dsimp only) | skip)))
+
+theorem monoPats : ∀ f acc ts, RLe (parsePats f acc ts) (parsePats (f+1) acc ts) := by
+  intro f
+  induction f with
+  | zero => intro acc ts x h; simp [parsePats] at h
+  | succ n ih =>
+    intro acc ts
+    rw [parsePats.eq_2 acc ts n, parsePats.eq_2 acc ts (n+1)]
+    apply RLe.bind (RLe.refl _)
+    intro a
+    obtain ⟨p, rest⟩ := a
+    dsimp only
+    apply RLe.ite
+    · intro _; exact ih _ _
+    · intro _; exact RLe.refl _
 
 theorem mono : ∀ f,
     (∀ c ts, RLe (parseExpr f c ts) (parseExpr (f+1) c ts)) ∧
@@ -49,14 +71,22 @@ theorem mono : ∀ f,
     (∀ acc ts, RLe (parseArgsTail f acc ts) (parseArgsTail (f+1) acc ts)) ∧
     (∀ ts, RLe (parseIf f ts) (parseIf (f+1) ts)) ∧
     (∀ acc ts, RLe (parseBlock f acc ts) (parseBlock (f+1) acc ts)) ∧
-    (∀ ts, RLe (parseStmt f ts) (parseStmt (f+1) ts)) := by
+    (∀ ts, RLe (parseStmt f ts) (parseStmt (f+1) ts)) ∧
+    (∀ ts, RLe (parseMatch f ts) (parseMatch (f+1) ts)) ∧
+    (∀ acc ts, RLe (parseArms f acc ts) (parseArms (f+1) acc ts)) ∧
+    (∀ ts, RLe (parseElems f ts) (parseElems (f+1) ts)) ∧
+    (∀ acc ts, RLe (parseElemsTail f acc ts) (parseElemsTail (f+1) acc ts)) ∧
+    (∀ acc ts, RLe (parseMapPairs f acc ts) (parseMapPairs (f+1) acc ts)) ∧
+    (∀ ts, RLe (parseArmBody f ts) (parseArmBody (f+1) ts)) := by
   intro f
   induction f with
   | zero =>
-    refine ⟨?_, ?_, ?_, ?_, ?_, ?_, ?_⟩ <;> intros <;> intro x h <;> simp [parseExpr, loop, parseArgs, parseArgsTail, parseIf, parseBlock, parseStmt] at h
+    refine ⟨?_, ?_, ?_, ?_, ?_, ?_, ?_, ?_, ?_, ?_, ?_, ?_, ?_⟩ <;> intros <;> intro x h <;>
+      simp [parseExpr, loop, parseArgs, parseArgsTail, parseIf, parseBlock, parseStmt, parseMatch, parseArms, parseElems,
+        parseElemsTail, parseMapPairs, parseArmBody] at h
   | succ n ih =>
-    obtain ⟨ihP, ihL, ihA, ihT, ihI, ihB, ihS⟩ := ih
-    refine ⟨?_, ?_, ?_, ?_, ?_, ?_, ?_⟩
+    obtain ⟨ihP, ihL, ihA, ihT, ihI, ihB, ihS, ihM, ihR, ihE, ihET, ihK, ihO⟩ := ih
+    refine ⟨?_, ?_, ?_, ?_, ?_, ?_, ?_, ?_, ?_, ?_, ?_, ?_, ?_⟩
     · intro c ts
       cases ts with
       | nil => exact RLe.refl _
@@ -93,6 +123,24 @@ theorem mono : ∀ f,
       | cons t rest =>
         rw [parseStmt.eq_3 n t rest, parseStmt.eq_3 (n+1) t rest]
         mono_auto
+    · intro ts
+      rw [parseMatch.eq_2 ts n, parseMatch.eq_2 ts (n+1)]
+      mono_auto
+    · intro acc ts
+      rw [parseArms.eq_2 acc ts n, parseArms.eq_2 acc ts (n+1)]
+      mono_auto
+    · intro ts
+      rw [parseElems.eq_2 ts n, parseElems.eq_2 ts (n+1)]
+      mono_auto
+    · intro acc ts
+      rw [parseElemsTail.eq_2 acc ts n, parseElemsTail.eq_2 acc ts (n+1)]
+      mono_auto
+    · intro acc ts
+      rw [parseMapPairs.eq_2 acc ts n, parseMapPairs.eq_2 acc ts (n+1)]
+      mono_auto
+    · intro ts
+      rw [parseArmBody.eq_2 ts n, parseArmBody.eq_2 ts (n+1)]
+      mono_auto
 
 theorem monoP {f f' c ts r} (hf : f ≤ f') (h : parseExpr f c ts = .ok r) : parseExpr f' c ts = .ok r := by
   induction hf with
@@ -187,6 +235,13 @@ mutual
 def renderT : PExpr → List Tok
   | .ifE _ _ _ => []
   | .fnE _ _ => []
+  | .null => []
+  | .score => []
+  | .matchE _ _ => []
+  | .arr _ => []
+  | .map _ => []
+  | .lit _ _ => []
+  | .bid _ => []
   | .int n => [.int n]
   | .bool b => [.bool b]
   | .ident s => [.ident s]
@@ -221,6 +276,13 @@ mutual
 def wfT : PExpr → Bool
   | .ifE _ _ _ => false
   | .fnE _ _ => false
+  | .null => false
+  | .score => false
+  | .matchE _ _ => false
+  | .arr _ => false
+  | .map _ => false
+  | .lit _ _ => false
+  | .bid _ => false
   | .int _ => true
   | .bool _ => true
   | .ident _ => true
@@ -239,6 +301,13 @@ mutual
 def renderFullT : PExpr → List Tok
   | .ifE _ _ _ => []
   | .fnE _ _ => []
+  | .null => []
+  | .score => []
+  | .matchE _ _ => []
+  | .arr _ => []
+  | .map _ => []
+  | .lit _ _ => []
+  | .bid _ => []
   | .int n => [.int n]
   | .bool b => [.bool b]
   | .ident s => [.ident s]
@@ -506,6 +575,13 @@ theorem above_left {a op c} (ha : rootOK a = true) (hop : op ∈ infixToks) (hc 
   cases a with
   | ifE _ _ _ => rfl
   | fnE _ _ => rfl
+  | null => rfl
+  | score => rfl
+  | matchE _ _ => rfl
+  | arr _ => rfl
+  | map _ => rfl
+  | lit _ _ => rfl
+  | bid _ => rfl
   | int _ => rfl
   | bool _ => rfl
   | ident _ => rfl
@@ -531,6 +607,13 @@ theorem stopsTop_right {b p rest} (ha : aboveCtx M p b = true) (hs : stops p res
   cases b with
   | ifE _ _ _ => simp [rlevel] at hq
   | fnE _ _ => simp [rlevel] at hq
+  | null => simp [rlevel] at hq
+  | score => simp [rlevel] at hq
+  | matchE _ _ => simp [rlevel] at hq
+  | arr _ => simp [rlevel] at hq
+  | map _ => simp [rlevel] at hq
+  | lit _ _ => simp [rlevel] at hq
+  | bid _ => simp [rlevel] at hq
   | int _ => simp [rlevel] at hq
   | bool _ => simp [rlevel] at hq
   | ident _ => simp [rlevel] at hq
@@ -673,7 +756,8 @@ theorem U_range {op a b ra rb oka okb} (hop : op ∈ rangeOps) (hv : validRange 
     (fun h => absurd h (kinds_range op hop).2.1)
   intro F c rest' rest hc hp
   rw [loop.eq_3]
-  simp only [ttype_t, hc, if_true, (kinds_range op hop).1, hp, ok_bind, hv]
+  have hv' : validRangeX a b = true := by simp [validRangeX, hv]
+  simp only [ttype_t, hc, if_true, (kinds_range op hop).1, hp, ok_bind, hv']
 
 /-- a postfix node `a q mid` (index, call): `hstep` is the step of the Pratt loop that consumes `q mid` -/
 theorem U_postfix {q a ra oka} (node : PExpr) (mid : List Tok) (hq : q ∈ postfixToks)
@@ -835,6 +919,13 @@ theorem needL_assign {a} (hw : wfT M a = true) (hok : okBAT M true a = true) : n
   cases a with
   | ifE _ _ _ => rfl
   | fnE _ _ => rfl
+  | null => rfl
+  | score => rfl
+  | matchE _ _ => rfl
+  | arr _ => rfl
+  | map _ => rfl
+  | lit _ _ => rfl
+  | bid _ => rfl
   | int _ => rfl
   | bool _ => rfl
   | ident _ => rfl
@@ -851,6 +942,13 @@ mutual
 theorem U_render : ∀ (x : PExpr), wfT M x = true → U x (renderT M x) (fun ca => okBAT M ca x)
   | .ifE _ _ _, h => by simp [wfT] at h
   | .fnE _ _, h => by simp [wfT] at h
+  | .null, h => by simp [wfT] at h
+  | .score, h => by simp [wfT] at h
+  | .matchE _ _, h => by simp [wfT] at h
+  | .arr _, h => by simp [wfT] at h
+  | .map _, h => by simp [wfT] at h
+  | .lit _ _, h => by simp [wfT] at h
+  | .bid _, h => by simp [wfT] at h
   | .int n, _ => U_weaken (U_int n) (fun ca h => by simp [okBAT] at h)
   | .bool b, _ => U_weaken (U_bool b) (fun ca h => by simp [okBAT] at h)
   | .ident s, _ => U_weaken (U_ident s) (fun ca h => by simpa [okBAT] using h)
@@ -897,6 +995,13 @@ theorem stopsTop_of_assign {x rest} (hx : rootOK x = true) (hs : stops assignRan
   cases x with
   | ifE _ _ _ => simp [rlevel] at hp
   | fnE _ _ => simp [rlevel] at hp
+  | null => simp [rlevel] at hp
+  | score => simp [rlevel] at hp
+  | matchE _ _ => simp [rlevel] at hp
+  | arr _ => simp [rlevel] at hp
+  | map _ => simp [rlevel] at hp
+  | lit _ _ => simp [rlevel] at hp
+  | bid _ => simp [rlevel] at hp
   | int _ => simp [rlevel] at hp
   | bool _ => simp [rlevel] at hp
   | ident _ => simp [rlevel] at hp
@@ -945,6 +1050,13 @@ theorem rlevel_agree {x} (hx : rootOK x = true) : rlevel docTbl x = rlevel M x :
   cases x with
   | ifE _ _ _ => rfl
   | fnE _ _ => rfl
+  | null => rfl
+  | score => rfl
+  | matchE _ _ => rfl
+  | arr _ => rfl
+  | map _ => rfl
+  | lit _ _ => rfl
+  | bid _ => rfl
   | int _ => rfl
   | bool _ => rfl
   | ident _ => rfl
@@ -974,6 +1086,13 @@ theorem agree : ∀ (x : PExpr), wfT docTbl x = true →
     wfT M x = true ∧ renderT docTbl x = renderT M x ∧ ∀ ca, okBAT docTbl ca x = okBAT M ca x
   | .ifE _ _ _, h => by simp [wfT] at h
   | .fnE _ _, h => by simp [wfT] at h
+  | .null, h => by simp [wfT] at h
+  | .score, h => by simp [wfT] at h
+  | .matchE _ _, h => by simp [wfT] at h
+  | .arr _, h => by simp [wfT] at h
+  | .map _, h => by simp [wfT] at h
+  | .lit _ _, h => by simp [wfT] at h
+  | .bid _, h => by simp [wfT] at h
   | .int _, _ => ⟨rfl, rfl, fun _ => rfl⟩
   | .bool _, _ => ⟨rfl, rfl, fun _ => rfl⟩
   | .ident _, _ => ⟨rfl, rfl, fun _ => rfl⟩
@@ -1054,6 +1173,13 @@ mutual
 theorem U_renderFull : ∀ (x : PExpr), wfT M x = true → U x (renderFullT M x) (fun _ => false)
   | .ifE _ _ _, h => by simp [wfT] at h
   | .fnE _ _, h => by simp [wfT] at h
+  | .null, h => by simp [wfT] at h
+  | .score, h => by simp [wfT] at h
+  | .matchE _ _, h => by simp [wfT] at h
+  | .arr _, h => by simp [wfT] at h
+  | .map _, h => by simp [wfT] at h
+  | .lit _ _, h => by simp [wfT] at h
+  | .bid _, h => by simp [wfT] at h
   | .int n, _ => U_int n
   | .bool b, _ => U_bool b
   | .ident s, _ => U_weaken (U_ident s) (fun ca h => by simp at h)
@@ -1099,6 +1225,13 @@ mutual
 theorem agreeFull : ∀ (x : PExpr), wfT docTbl x = true → renderFullT docTbl x = renderFullT M x
   | .ifE _ _ _, h => by simp [wfT] at h
   | .fnE _ _, h => by simp [wfT] at h
+  | .null, h => by simp [wfT] at h
+  | .score, h => by simp [wfT] at h
+  | .matchE _ _, h => by simp [wfT] at h
+  | .arr _, h => by simp [wfT] at h
+  | .map _, h => by simp [wfT] at h
+  | .lit _ _, h => by simp [wfT] at h
+  | .bid _, h => by simp [wfT] at h
   | .int _, _ => rfl
   | .bool _, _ => rfl
   | .ident _, _ => rfl
@@ -1229,6 +1362,13 @@ theorem startOK_render (T : Tbl) : ∀ (x : PExpr), wfT T x = true → ∀ rest,
     startOK (renderT T x ++ rest) = true
   | .ifE _ _ _, h, _, _ => by simp [wfT] at h
   | .fnE _ _, h, _, _ => by simp [wfT] at h
+  | .null, h, _, _ => by simp [wfT] at h
+  | .score, h, _, _ => by simp [wfT] at h
+  | .matchE _ _, h, _, _ => by simp [wfT] at h
+  | .arr _, h, _, _ => by simp [wfT] at h
+  | .map _, h, _, _ => by simp [wfT] at h
+  | .lit _ _, h, _, _ => by simp [wfT] at h
+  | .bid _, h, _, _ => by simp [wfT] at h
   | .int _, _, rest, _ => by simp [renderT, startOK]; decide
   | .bool b, _, rest, _ => by cases b <;> simp [renderT, startOK] <;> decide
   | .ident _, _, rest, h => by simp only [renderT, List.cons_append, List.nil_append, startOK, ttype_ident, h]; decide
